@@ -248,24 +248,35 @@ func genAddrList(t *rapid.T, v *AVsys, label string) []string {
 	switch {
 	case k == 0:
 		return []string{"any"}
-	case k <= 3:
-		// one group
-		gn := fmt.Sprintf("g%d", rapid.IntRange(0, 3).Draw(t, label+"G"))
-		if _, ok := v.Groups[gn]; !ok {
-			n := rapid.IntRange(1, 5).Draw(t, label+"GN")
-			seen := map[string]bool{}
-			var ms []string
-			for i := 0; i < n; i++ {
-				ip := rapid.SampledFrom(append(hostIPs, netIPs...)).Draw(t, fmt.Sprintf("%sGM%d", label, i))
-				a := v.ensureAddr(ip)
-				if !seen[a] {
-					seen[a] = true
-					ms = append(ms, a)
+	case k <= 4:
+		// one group; sometimes two groups, or a group and an address
+		group := func(label string) string {
+			gn := fmt.Sprintf("g%d", rapid.IntRange(0, 3).Draw(t, label+"G"))
+			if _, ok := v.Groups[gn]; !ok {
+				n := rapid.IntRange(1, 5).Draw(t, label+"GN")
+				seen := map[string]bool{}
+				var ms []string
+				for i := 0; i < n; i++ {
+					ip := rapid.SampledFrom(append(hostIPs, netIPs...)).Draw(t, fmt.Sprintf("%sGM%d", label, i))
+					a := v.ensureAddr(ip)
+					if !seen[a] {
+						seen[a] = true
+						ms = append(ms, a)
+					}
 				}
+				v.Groups[gn] = ms
 			}
-			v.Groups[gn] = ms
+			return gn
 		}
-		return []string{gn}
+		l := []string{group(label)}
+		// (Never two groups in one list: Netspoc writes one group per list,
+		// and the tool pairs the groups of two lists by position, which
+		// does not converge for two groups whose names on the device sort
+		// differently; see DESIGN 8.6.)
+		if k == 4 {
+			l = append(l, v.ensureAddr(rapid.SampledFrom(append(hostIPs, netIPs...)).Draw(t, label+"GA")))
+		}
+		return l
 	}
 	n := rapid.IntRange(1, 3).Draw(t, label+"N")
 	seen := map[string]bool{}
